@@ -14,7 +14,7 @@ package main
 //	6 = sudp  plain            tcpMux on         14 = sudp comp      mux off
 //	7 = sudp  enc+comp         tcpMux off        15 = sudp comp      mux on
 //
-// quick tier: 0..3, thorough: 0..15.
+// quick tier: 0..3, thorough: 0..18 (16 = udp over websocket, 17 = udp enc+comp over kcp, 18 = udp comp over quic).
 //
 // How the replacement is forced:
 //   - udp variants: server.(*Service).VerifC03CloseUDPWorkConn(name) closes the server side's
@@ -40,25 +40,29 @@ type sysVariant struct {
 	id             int
 	sudp           bool
 	enc, comp, mux bool
+	proto          string // transport.protocol of frpc ("" = tcp); thorough tier: websocket, kcp, quic
 }
 
 var sysVariants = []sysVariant{
-	{0, false, false, false, false},
-	{1, false, true, true, true},
-	{2, true, false, false, false},
-	{3, true, true, true, true},
-	{4, false, false, false, true},
-	{5, false, true, true, false},
-	{6, true, false, false, true},
-	{7, true, true, true, false},
-	{8, false, true, false, false},
-	{9, false, true, false, true},
-	{10, false, false, true, false},
-	{11, false, false, true, true},
-	{12, true, true, false, false},
-	{13, true, true, false, true},
-	{14, true, false, true, false},
-	{15, true, false, true, true},
+	{0, false, false, false, false, ""},
+	{1, false, true, true, true, ""},
+	{2, true, false, false, false, ""},
+	{3, true, true, true, true, ""},
+	{4, false, false, false, true, ""},
+	{5, false, true, true, false, ""},
+	{6, true, false, false, true, ""},
+	{7, true, true, true, false, ""},
+	{8, false, true, false, false, ""},
+	{9, false, true, false, true, ""},
+	{10, false, false, true, false, ""},
+	{11, false, false, true, true, ""},
+	{12, true, true, false, false, ""},
+	{13, true, true, false, true, ""},
+	{14, true, false, true, false, ""},
+	{15, true, false, true, true, ""},
+	{16, false, false, false, true, "websocket"},
+	{17, false, true, true, false, "kcp"},
+	{18, false, false, true, true, "quic"},
 }
 
 func (v sysVariant) String() string {
@@ -76,6 +80,9 @@ func (v sysVariant) String() string {
 	}
 	if v.mux {
 		s += " mux"
+	}
+	if v.proto != "" {
+		s += " " + v.proto
 	}
 	return s
 }
@@ -225,9 +232,17 @@ func sysVariantRun(v sysVariant, g *hx.Gen, sz *sizer, dist map[string]int) (cas
 		return cases, append(out, sysFinding{"sys:setup", what, ""})
 	}
 	srvIP := fmt.Sprintf("127.0.3.%d", 20+v.id)
+	quicPort := 0
 	s, err := hx.StartServer(srvIP, func(c *v1.ServerConfig) {
 		m := v.mux
 		c.Transport.TCPMux = &m
+		switch v.proto {
+		case "kcp":
+			c.KCPBindPort = c.BindPort
+		case "quic":
+			quicPort = hx.FreeUDPPort(srvIP)
+			c.QUICBindPort = quicPort
+		}
 	})
 	if err != nil {
 		if s != nil {
@@ -256,6 +271,14 @@ func sysVariantRun(v sysVariant, g *hx.Gen, sz *sizer, dist map[string]int) (cas
 		}
 	}
 
+	if v.proto != "" && mutate == nil {
+		mutate = func(cc *v1.ClientCommonConfig) {
+			cc.Transport.Protocol = v.proto
+			if v.proto == "quic" {
+				cc.ServerPort = quicPort
+			}
+		}
+	}
 	name := fmt.Sprintf("c03v%d", v.id)
 	var target, target2 *net.UDPAddr
 	var proxies []v1.ProxyConfigurer
@@ -498,6 +521,74 @@ func sysVariantRun(v sysVariant, g *hx.Gen, sz *sizer, dist map[string]int) (cas
 			if sends[i].phase == 2 && w.bkSeen[i] == 0 {
 				out = append(out, sysFinding{"sys:lost-after-reestablished", fmt.Sprintf("datagram %d (user %d, %d bytes), sent at light load more than a second "+
 					"after the replaced work connection was up again (%s), never reached the backend", i, sends[i].user, len(sends[i].data), how), ""})
+				break
+			}
+		}
+		w.mu.Unlock()
+	}
+	if okB && !v.sudp {
+		// the work connection breaks WHILE datagrams are being written: unrecorded probes flood the tunnel from a
+		// tight loop so that the server-side sender goroutine is writing (or has the next datagram ready) at the moment
+		// the connection is closed; three times.  Afterwards ONE replacement per failure must have happened (the work
+		// connection objects the server installs are polled) and light-load datagrams must arrive.
+		ids := map[string]bool{}
+		stopPoll := make(chan struct{})
+		pollDone := make(chan struct{})
+		go func() {
+			defer close(pollDone)
+			for {
+				select {
+				case <-stopPoll:
+					return
+				default:
+				}
+				if id := s.Svc.VerifC03UDPWorkConnID(name); id != "" {
+					ids[id] = true
+				}
+				time.Sleep(200 * time.Microsecond)
+			}
+		}()
+		const floodCuts = 3
+		for k := 0; k < floodCuts; k++ {
+			stopFlood := make(chan struct{})
+			floodDone := make(chan struct{})
+			go func() {
+				defer close(floodDone)
+				for n := 0; ; n++ {
+					select {
+					case <-stopFlood:
+						return
+					default:
+					}
+					_, _ = w.users[n%nusers].WriteToUDP(mkProbe(n%nusers, 100000+n), target)
+				}
+			}()
+			time.Sleep(5 * time.Millisecond)
+			forceCut()
+			time.Sleep(25 * time.Millisecond)
+			close(stopFlood)
+			<-floodDone
+			time.Sleep(150 * time.Millisecond)
+		}
+		time.Sleep(1200 * time.Millisecond) // a livelock of replacements keeps installing connections during this second
+		close(stopPoll)
+		<-pollDone
+		installed := len(ids)
+		hx.CountBy(dist, fmt.Sprintf("sys flood-cuts=%d work connections installed<=%d", floodCuts, (installed+4)/5*5))
+		cases = append(cases, fmt.Sprintf("CReplace %d %d %d", v.id, floodCuts, installed))
+		if installed > floodCuts+1 {
+			out = append(out, sysFinding{"sys:replacement-livelock", fmt.Sprintf("the work connection failed %d times while datagrams were being written, "+
+				"but the server-side udp proxy installed %d work connections: one failure must consume one replacement", floodCuts, installed), ""})
+		}
+		silentFrom := len(sends)
+		for b := 0; b < 2 && okB; b++ {
+			okB = burst(2, 1, 3)
+		}
+		w.mu.Lock()
+		for i := silentFrom; i < len(sends); i++ {
+			if sends[i].phase == 2 && w.bkSeen[i] == 0 {
+				out = append(out, sysFinding{"sys:lost-after-reestablished", fmt.Sprintf("datagram %d (user %d, %d bytes), sent at light load more than a second "+
+					"after the last work-connection failure (failures while datagrams were being written), never reached the backend", i, sends[i].user, len(sends[i].data)), ""})
 				break
 			}
 		}
